@@ -1344,7 +1344,12 @@ class URL:
             raise TypeError("Invalid name type")
         if "/" in name:
             raise ValueError("Slash in name is not allowed")
-        name = PATH_QUOTER(name)
+        return self._with_raw_name(PATH_QUOTER(name), keep_query, keep_fragment)
+
+    def _with_raw_name(
+        self, name: str, keep_query: bool, keep_fragment: bool
+    ) -> "URL":
+        """Replace the last part of the path with an already encoded name."""
         if name in (".", ".."):
             raise ValueError(". and .. values are forbidden")
         parts = list(self.raw_parts)
@@ -1380,13 +1385,16 @@ class URL:
             raise TypeError("Invalid suffix type")
         if suffix and not suffix[0] == "." or suffix == ".":
             raise ValueError(f"Invalid suffix {suffix!r}")
+        if "/" in suffix:
+            raise ValueError("Slash in name is not allowed")
         name = self.raw_name
         if not name:
             raise ValueError(f"{self!r} has an empty name")
         old_suffix = self.raw_suffix
+        # only the new suffix is quoted, the existing name is already encoded
+        suffix = PATH_QUOTER(suffix)
         name = name + suffix if not old_suffix else name[: -len(old_suffix)] + suffix
-
-        return self.with_name(name, keep_query=keep_query, keep_fragment=keep_fragment)
+        return self._with_raw_name(name, keep_query, keep_fragment)
 
     def join(self, url: "URL") -> "URL":
         """Join URLs
